@@ -456,11 +456,24 @@ def judge_book(ctx, exe, drv, fen, moves, idx):
         exp.append((len(cmds) - 1, moves[2]))
     cmds += ['ucinewgame', f'position fen {fen}', 'go depth 1']
     exp.append((len(cmds) - 1, moves[0]))
+    # a SECOND book replaces the first: it records only the decoy move for the first position, so that move must be answered now
+    # (anything kept from the first book would still prefer the weight-10 move)
+    path2 = None
+    (f_0, key_0), legal_0 = line[0]
+    others0 = [x for x in legal_0 if x != moves[0] and x not in ('e1g1', 'e1c1', 'e8g8', 'e8c8')]
+    if others0:
+        path2 = os.path.join(d, f'glue_{os.getpid()}_{idx}_b.bin')
+        with open(path2, 'wb') as fh:
+            fh.write(key_0.to_bytes(8, 'big') + poly_move(others0[0]).to_bytes(2, 'big') + (5).to_bytes(2, 'big') + bytes(4))
+        cmds += [f'setoption name Polyglot Book value {path2}', f'position fen {fen}', 'go depth 1']
+        exp.append((len(cmds) - 1, others0[0]))
     res, dead, stderr = run_script(exe, cmds)
-    try:
-        os.remove(path)
-    except OSError:
-        pass
+    for pth in (path, path2):
+        try:
+            if pth:
+                os.remove(pth)
+        except OSError:
+            pass
     script = '\n'.join(cmds) + '\n'
     hdr = ('# UCI session with an opening book: records (key from the rules-level Polyglot key, move, weight) = ' +
            ' '.join(f'[{line[i][0][1]:016x} {moves[i]} w10]' for i in range(k)) + ' followed by one weight-1 decoy per key\n')
